@@ -192,6 +192,9 @@ func (f *remoteWrapper) Config() proxyv1alpha1.RateLimitItemConfiguration {
 }
 
 func (f *remoteWrapper) Sync(limitItem proxyv1alpha1.RateLimitItemConfiguration) {
+	// never install more than the configured global limit (or less than nothing), whatever the server answered
+	limitItem = f.clampToGlobalLimit(limitItem)
+
 	if reflect.DeepEqual(limitItem, f.remoteConfig) {
 		return
 	}
@@ -233,6 +236,29 @@ func (f *remoteWrapper) Sync(limitItem proxyv1alpha1.RateLimitItemConfiguration)
 	default:
 		f.GlobalCounterFlowControl = f.newFlowControl(limitItem, newType)
 	}
+}
+
+// clampToGlobalLimit bounds the quota answered by the limiter server to [0, configured global limit].
+func (f *remoteWrapper) clampToGlobalLimit(limitItem proxyv1alpha1.RateLimitItemConfiguration) proxyv1alpha1.RateLimitItemConfiguration {
+	clamp := func(v, max int32) int32 {
+		if v > max {
+			v = max
+		}
+		if v < 0 {
+			v = 0
+		}
+		return v
+	}
+	local := f.flowControlCache.local.Config()
+	clamped := *limitItem.DeepCopy()
+	switch {
+	case clamped.MaxRequestsInflight != nil && local.GlobalMaxRequestsInflight != nil:
+		clamped.MaxRequestsInflight.Max = clamp(clamped.MaxRequestsInflight.Max, local.GlobalMaxRequestsInflight.Max)
+	case clamped.TokenBucket != nil && local.GlobalTokenBucket != nil:
+		clamped.TokenBucket.QPS = clamp(clamped.TokenBucket.QPS, local.GlobalTokenBucket.QPS)
+		clamped.TokenBucket.Burst = clamp(clamped.TokenBucket.Burst, local.GlobalTokenBucket.Burst)
+	}
+	return clamped
 }
 
 func (f *remoteWrapper) newFlowControl(limitItem proxyv1alpha1.RateLimitItemConfiguration, newType proxyv1alpha1.FlowControlSchemaType) GlobalCounterFlowControl {
